@@ -152,6 +152,8 @@ func (p *Program) verifyFunction(name string) (enc *Enc, err error) {
 			entry = append(entry, Le(args[i], alloc0))
 		case *types.Slice:
 			entry = append(entry, Le(SPtr(args[i]), alloc0))
+		case *types.Interface:
+			entry = append(entry, Implies(App(SBool, "ptrlike", App(SInt, "tag", args[i])), And(Le(Zero, App(SInt, "pl_Int", args[i])), Le(App(SInt, "pl_Int", args[i]), alloc0))))
 		}
 	}
 	// requires
